@@ -397,6 +397,9 @@ def judge_failure(res, case, rec):
         res.inconclusive.append(f'{cls}: Configuration.reload() was never called after the reload request')
         return
     failed = not reloads[0]['ok']
+    if reloads[0].get('raised'):
+        res.violation(f'C17/reload-raises:{reloads[0]["raised"]}:{case.get("fault", "")}', f'Configuration.reload() of a refused file raised instead of answering false: {reloads[0]["error"][-160:]}', wit, cls)
+        return
     if case.get('failpoint'):
         fp = [e for e in rec['events'] if e['kind'] == 'failpoint']
         if not fp or not fp[0]['fired']:
